@@ -472,7 +472,16 @@ def m_to_lowercase(e, st, a, ctx):
 def m_replace(e, st, a, ctx):
     sv = as_str(e, st, a[0]); p = as_str(e, st, a[1]); r = as_str(e, st, a[2])
     pc = str_concrete(p); rc = str_concrete(r)
-    if pc is None or rc is None: raise Abort('replace with symbolic pattern')
+    if pc is None or rc is None:
+        # general case: the pieces of split(p) joined with r
+        v = split_general(e, st, sv, p)
+        out = S(0, [])
+        for i, x in enumerate(v.it):
+            c = simp(i < v.len)
+            if c is False: break
+            nxt = str_concat(str_concat(out, r), x) if i > 0 else x
+            out = nxt if c is True else merge(c, nxt, out)
+        return out
     sc = str_concrete(sv)
     if sc is not None: return mk_str(sc.replace(pc, rc))
     if len(pc) == 1 and len(rc) <= 2:
@@ -1769,12 +1778,36 @@ def m_str_split2(e, st, a, ctx):
         return T([V(*split_on_flags(sv, flags)), 0], 'iter::Split')
     p = pat_str(e, st, pat)
     pc = str_concrete(p)
-    if pc is None or len(pc) != 1: raise Abort('split with symbolic / multi-char pattern')
+    if pc is None or len(pc) != 1:
+        return T([split_general(e, st, sv, p), 0], 'iter::Split')
     code = ord(pc)
     sc = str_concrete(sv)
     if sc is not None:
         parts = sc.split(pc); return T([V(len(parts), [mk_str(x) for x in parts]), 0], 'iter::Split')
     return T([V(*split_on_flags(sv, [zand(i < sv.len, zeq(c, code)) for i, c in enumerate(sv.ch)])), 0], 'iter::Split')
+
+
+def split_general(e, st, sv, p):
+    """str::split with an arbitrary (symbolic, possibly multi-character) non-empty pattern: the text between the non-overlapping
+    occurrences taken from the left. Model bound: the pattern is not empty (an obligation)."""
+    e.oblige(st, p.len >= 1, 'model bound: str::split / replace with an empty pattern', 'unwind')
+    n = len(sv.ch)
+    free = 0; takes = []
+    for i in range(n):
+        t = simp(zand(match_at(sv, p, i), i >= free, p.len >= 1))
+        takes.append(t); free = zite(t, i + p.len, free)
+    before = [0]
+    for i in range(n): before.append(before[-1] + zite(takes[i], 1, 0))      # matches taken at positions < i
+    count = before[n] + 1
+    pieces = []
+    for k in range(n + 1):
+        # piece k starts behind the (k-1)-th match (or at 0) and ends at the k-th match (or at the end)
+        start = 0; end = sv.len
+        for i in range(n - 1, -1, -1):
+            if k >= 1: start = zite(zand(takes[i], zeq(before[i], k - 1)), i + p.len, start)
+            end = zite(zand(takes[i], zeq(before[i], k)), i, end)
+        pieces.append(str_sub(sv, simp(start), simp(end)))
+    return V(simp(count), pieces)
 
 
 def split_on_flags(sv, sep):
